@@ -45,16 +45,17 @@ start = s.index("## 13. Seeded changes and which checks catch them")
 end = s.index("## Appendix A")
 intro = '''## 13. Seeded changes and which checks catch them
 
-Two rounds of independent sub-agents (one per claimed property and round) were
-given only the text of one property and a private scratch worktree, and asked
-for two changes each that break the property, keep the pinned suite green and
-need something specific to manifest; the second round was steered towards
-state left by earlier calls, failures at interior points, unspecified
-behaviour of dependencies and cooperating edits. Every change was confirmed by
+Three rounds of independent sub-agents (one per claimed property and round)
+were given only the text of one property and a private scratch worktree, and
+asked for two changes each that break the property, keep the pinned suite green
+and need something specific to manifest; rounds two and three were steered
+towards state left by earlier calls, failures at interior points, unspecified
+behaviour of dependencies and cooperating edits, and were told which ideas were
+already taken (variants A/B = round 1, C/D = round 2, E/F = round 3). Every change was confirmed by
 `tools/confirm_seeds.sh` in a scratch worktree (patch applies; no newly
 failing test; the agent's demo fails with the change and passes without) before
 it was filed under `/verif/seeded/<id>/` (`patch.diff`, `demo.py`, `notes.md`
-with the trigger, `meta.json`). 43 changes are kept. One first-round change
+with the trigger, `meta.json`). One first-round change
 (C13-A, pickling through `values`) stopped being a breaking change when the
 underlying defect — `values` of a non-contiguous array — was found by the C13
 check itself and repaired (§10); it was retired. Three were re-created by hand
@@ -80,7 +81,27 @@ same object after a stage; C11-C (rank proxy cached on the object) and C11-D
 own output; C17-D (`to_sympy` renaming its argument, not restored on the
 failure path) to a `to_sympy` entry in the catalogue, where the line-interrupt
 fault finds it; C15-C (a rejected `set_options` leaking its valid keys) to the
-twin running under the options the program asked for.
+twin running under the options the program asked for. Round three: C19-E (a
+constancy flag cached on the object) and C13-E (pickle state memoised on the
+object) led to query/pickle, overwrite the coefficients in place, query/pickle
+again; C19-F (a module-level cache keyed on the exponent bytes without their
+shape) to the near-collision primer (the same query, earlier, on a polynomial
+whose exponent matrix holds the same numbers in another width); C12-E and C11-F
+(`lru_cache`d scalar constants, where `1 == 1.0 == True` and `0.0 == -0.0` share
+a key) to numpy/Python scalar operands preceded by an equal number spelled
+differently; C12-F (complex -> bool through `.real`) to the complete (source
+dtype, target dtype, cast route) matrix with purely imaginary data; C11-E
+(comparisons decided on the sign of a difference) to int64 extremes, unsigned
+data and infinities in the comparison functions; C18-E (unsigned bounds wrapping
+at `start - 1`) to bounds passed as numpy integers of every signedness; C18-F
+(a division by zero that is only a warning by default) to running index
+generation under `numpy.errstate(all="raise")` — which also exposed a genuine
+division by zero for `stop == 0` (repaired, §10); C16-E (element names taken
+from the parent array) to printing with the retain options in force; C16-F and
+C20-F to integers beyond 2**53 and to powers whose exponent cannot be
+represented; C17-F (`-0.0` rewritten in place) to negative zero in float data;
+C20-E to a permuted multi-field view of the raw storage; C15-F (an unpicklable
+result) to treating a result whose own accessors raise as a verdict.
 
 '''
 s = s[:start] + intro + table + "\n\n---------------------------------------------------------------------------\n\n" + s[end:]
